@@ -344,12 +344,56 @@ def r7_nested_concrete(repo):
     return obs
 
 
+def class_table_rule(repo, rid):
+    """`Program.get_types()` is the class table the mutations hand to the searches.  find_irrelevant_type keeps its
+    promise only for a table in which (a) user classes are the *declarations* (its `_cls2type` turns them into the class
+    type or the type constructor, so a generic class takes the guarded generic path - an instantiation `d.get_type()` is
+    one random relative that the final relatedness test never sees) and (b) built-in constructors are instantiated
+    invariantly (`instantiate_type_constructor(t, ttypes)` with the default variance choices: a projection `Array<out X>`
+    in the table is a supertype of `Array<X>` that the nominal exclusion by name and type arguments does not exclude)."""
+    obs = []
+    f = repo.method("src.ir.ast.Program", "get_types", inherited=False)
+    me = f.params[0]
+    comps = [n for n in iter_own_nodes(f.node) if isinstance(n, (ast.ListComp, ast.GeneratorExp)) and
+             any(src(g.iter) == me + ".declarations" for g in n.generators)]
+    loops = [n for n in iter_own_nodes(f.node) if isinstance(n, ast.For) and src(n.iter) == me + ".declarations"]
+    ok_a, found = False, "no selection of the class declarations from %s.declarations" % me
+    if len(comps) == 1 and not loops:
+        c = comps[0]
+        tv = src(c.generators[0].target)
+        ok_a = len(c.generators) == 1 and src(c.elt) == tv
+        found = "element `%s` for `%s` in %s.declarations" % (src(c.elt), tv, me)
+    elif len(loops) == 1 and not comps:
+        tv = src(loops[0].target)
+        apps = [k for k in calls_in(loops[0]) if call_name(k) == "append"]
+        ok_a = bool(apps) and all(len(k.args) == 1 and src(k.args[0]) == tv for k in apps)
+        found = "appends %s for `%s`" % ([src(k) for k in apps], tv)
+    obs.append(Ob(rid, "Program.get_types:user-classes-enter-as-declarations", _w(f), ok_a,
+                  "the user classes of the table must be the ClassDeclaration objects themselves; found %s" % found))
+    inst = [k for k in calls_in(f.node) if call_name(k) == "instantiate_type_constructor"]
+    bad = []
+    for k in inst:
+        vc = kwarg(k, "variance_choices", 4)
+        if vc is not None and not (isinstance(vc, ast.Constant) and vc.value is None):
+            bad.append(src(k))
+        if any(kw.arg is None for kw in k.keywords):
+            bad.append(src(k))
+    obs.append(Ob(rid, "Program.get_types:builtin-constructors-instantiated-invariantly", _w(f), bool(inst) and not bad,
+                  "%d instantiation site(s); with variance choices (projections enter the table): %s" % (len(inst), bad)))
+    return obs
+
+
+def r8_class_table(repo):
+    return class_table_rule(repo, "C09-R8")
+
+
 def rules():
     return [
         RuleSpec("C09-R1", "_find_types: what enters the result / self / concreteness / modes", 9, r1_r2_r3_find_types),
         RuleSpec("C09-R4", "find_subtypes / find_supertypes wiring", 2, r4_wiring),
         RuleSpec("C09-R5", "find_irrelevant_type: top type, bound, pool, final relatedness test", 6, r5_r6_irrelevant),
         RuleSpec("C09-R7", "nested searches for type arguments are concrete and run in the direction the variance demands", 4, r7_nested_concrete),
+        RuleSpec("C09-R8", "the class table handed to the searches: declarations, invariant built-in instantiations", 2, r8_class_table),
     ]
 
 
